@@ -48,3 +48,6 @@ Qed.
 Definition curopen_tree (c : curopen) : tree := TL [TI (co_id c); TB (co_name c); TI (co_status c)].
 Definition curopen_of_tree (t : tree) : curopen :=
   {| co_id := t_int (t_nth 0 t); co_name := t_bytes (t_nth 1 t); co_status := t_int (t_nth 2 t) |}.
+
+Lemma curopen_of_tree_tree c : curopen_of_tree (curopen_tree c) = c.
+Proof. destruct c; reflexivity. Qed.
